@@ -117,11 +117,17 @@ theorem mem_groupCore (cfg : Cfg) (d : Nat) (G : List Item)
     rw [hp] at hspec hs
     simp only at hspec hs ⊢
     obtain ⟨hvs, hlen⟩ := hspec
-    have hB : ∀ x ∈ localOf vs G, EV.lt (cell x.2 1) cfg.sweepInit = true := by
-      intro x hx
-      obtain ⟨x0, hx0, rfl⟩ := List.mem_map.mp hx
-      exact List.all_eq_true.mp hs x0 hx0
-    rw [mem_sweep2 _ _ hB, ← local_transfer hvs, hlen]
+    cases hf : cfg.sweepFirst
+    · rw [hf] at hs
+      simp only [Bool.false_or] at hs
+      have hB : ∀ x ∈ localOf vs G, EV.lt (cell x.2 1) cfg.sweepInit = true := by
+        intro x hx
+        obtain ⟨x0, hx0, rfl⟩ := List.mem_map.mp hx
+        exact List.all_eq_true.mp hs x0 hx0
+      simp only [Bool.false_eq_true, if_false]
+      rw [mem_sweep2 _ _ hB, ← local_transfer hvs, hlen]
+    · simp only [if_true]
+      rw [mem_sweep2F, ← local_transfer hvs, hlen]
   | general vs =>
     rw [hp] at hspec hk
     simp only at hspec hk ⊢
